@@ -24,6 +24,7 @@ in the key type so that it can be run by `decide` on small numbers as well as on
 Import-free apart from the model (core only): the driver links it.
 -/
 import PestTyped.Model.Gen
+import PestTyped.Model.Getters
 namespace PestTyped
 
 /-- `generator/src/config.rs`. -/
@@ -184,6 +185,34 @@ def pickAst (cfg : Config) (optimized raw : PGrammar) : PGrammar :=
 `pest_meta::optimizer::optimize(raw)` (external, hence an input), `raw` is `consume_rules`' output. -/
 def genWith (cfg : Config) (optimized raw : PGrammar) : NodeGrammar :=
   genOn cfg (pickAst cfg optimized raw)
+
+/-! ### the whole emitted module: rule types AND accessor functions
+
+`NodeGrammar` holds what `rule!` receives (the type expression, `$atomicity`, `$emission`, `$boxed`).  The second
+thing the generator emits per rule is the `impl` block with the accessor functions (`Getter::collect`,
+`graph.rs:322-355`); `Model/Getters.lean` mirrors the getter forest.  `emit_rule_reference` is the option that
+decides whether an identifier contributes `Getter::from_rule` or `Getter::new()` (`graph/rule.rs:162-166`,
+`graph/optimized_rule.rs:165-169`): every other constructor only transforms / joins the forests of its children, so
+with the option off the forest of every rule is empty.  The options `do_not_emit_span`, `simulate_pair_api`,
+`no_warnings` are parsed into `Config` (`typed.rs:108-130`) and read nowhere in the generation
+(`no_warnings` guards one `eprintln!`); `emit_tagged_node_reference` / `truncate_getter_at_node_tag` are read only
+inside `#[cfg(feature = "grammar-extras")]` arms (node tags are not part of `PExpr`).  `emitWith` mirrors exactly
+that: it reads `pest_optimizer`, `box_only_if_needed` and `emit_rule_reference`. -/
+
+/-- The accessor functions of one rule under a configuration (name ↦ getter tree, sorted by name). -/
+def accessorsOf (cfg : Config) (r : PRule) : Forest :=
+  if cfg.emit_rule_reference then ruleGetters r else []
+
+/-- What `derive_typed_parser` emits for the rules, as far as the model goes. -/
+structure Emitted where
+  /-- the arguments of every `rule!` invocation and the `Skipped` alias -/
+  types : NodeGrammar
+  /-- per rule (in grammar order): its name and the accessor functions of its `impl` block -/
+  accessors : List (String × Forest)
+
+def emitWith (cfg : Config) (optimized raw : PGrammar) : Emitted :=
+  let g := pickAst cfg optimized raw
+  { types := genOn cfg g, accessors := g.map fun r => (r.name, accessorsOf cfg r) }
 
 /-! ### forgetting the storage decision -/
 
